@@ -1,11 +1,11 @@
 SPECIFICATION Spec
 CONSTANTS
-  Sizes <- S1
-  Pixels <- P1
+  Sizes <- S3
+  Pixels <- P2
   Ratios <- R1
-  XtModes = {"text"}
-  IoPx = {FALSE}
-  Ops = {"memo"}
+  XtModes = {"cell", "text", "none"}
+  IoPx = {TRUE, FALSE}
+  Ops = {"cell"}
   Variant = "code"
 INVARIANT TypeOK
 INVARIANT CellFresh
@@ -13,4 +13,6 @@ INVARIANT RatioFresh
 INVARIANT FixedSnapshot
 INVARIANT MemoFresh
 INVARIANT BodyOnce
+VIEW View
 CHECK_DEADLOCK FALSE
+ACTION_CONSTRAINT Dump
